@@ -686,6 +686,18 @@ func xPrepare(c *core.Ctx, h []xMsg) []xMsg {
 		if h[i].K == "exec" {
 			h[i].Lim = []int{0, 0, 2, 3, 1000, 1<<31 - 1, 1, 1}[core.H64(fmt.Sprint(i, h[i].Portal, len(h)))%8]
 		}
+		// the second value of a Bind is, in a quarter of the Binds, the empty value or NULL (the first one
+		// identifies the Bind): the portal carries what was bound - '' stays '', NULL stays NULL - whatever its name
+		if h[i].K == "bind" && len(h[i].Params) == 2 {
+			switch core.H64(fmt.Sprint("empty", i, h[i].Portal, h[i].BindID, len(h))) % 8 {
+			case 0:
+				h[i].Params = [][]byte{h[i].Params[0], {}}
+				c.Count("binds_with_an_empty_value", 1)
+			case 1:
+				h[i].Params = [][]byte{h[i].Params[0], nil}
+				c.Count("binds_with_a_null_value", 1)
+			}
+		}
 	}
 	return h
 }
